@@ -227,6 +227,9 @@ def recordConflicts (path : List PKey) (base : List (String × J)) (b : B) : Exc
   let lc ← combinePatches combFuel lc
   let rc ← combinePatches combFuel rc
   let kept := pushed.filter (fun d => !d.conflict)
+  -- a change either side made to a previous record is superseded by the record written below
+  let kept := kept.filter (fun d => !((d.localDiff.getD []) ++ (d.remoteDiff.getD [])).any
+    (fun e => entryKey e == some (.s "nbdime-conflicts")))
   let cdict : J := .obj [("local_diff", .arr (opsToJ lc)), ("remote_diff", .arr (opsToJ rc))]
   let op := if hasKey "nbdime-conflicts" base then Op.replace "nbdime-conflicts" cdict else Op.add "nbdime-conflicts" cdict
   pure (customD kept path (some lc) (some rc) (some [op]) true (some "record-conflict"))
